@@ -675,6 +675,28 @@ func shapeUDP(l4 *pkgInfo) []fact {
 		add("layer4_pc_read_selects_closed", "bool", b2s(strings.Contains(s, "<-pc.closed")), "packetConn.Read has a select case on pc.closed")
 		// the two places that lead to the EOF path: a nil packet (closed readCh) and the idle timer
 		add("layer4_pc_read_eof_notifies", "bool", b2s(strings.Contains(s, "pc.closeCh <-")), "packetConn.Read notifies the loop before returning io.EOF")
+		// is every notification in Read a plain (blocking) send, or a case of a select that has a default branch (can be lost)?
+		blocking := true
+		ast.Inspect(fd.Body, func(n ast.Node) bool {
+			sel, ok := n.(*ast.SelectStmt)
+			if !ok {
+				return true
+			}
+			hasSend, hasDefault := false, false
+			for _, c := range sel.Body.List {
+				cc := c.(*ast.CommClause)
+				if cc.Comm == nil {
+					hasDefault = true
+				} else if ss, ok := cc.Comm.(*ast.SendStmt); ok && l4.src(ss.Chan) == "pc.closeCh" {
+					hasSend = true
+				}
+			}
+			if hasSend && hasDefault {
+				blocking = false
+			}
+			return true
+		})
+		add("layer4_pc_read_notify_blocking", "bool", b2s(blocking), "the notification packetConn.Read sends before io.EOF is a blocking send (not a select case next to a default branch, which would drop it when closeCh is full)")
 	}
 	return out
 }
